@@ -93,7 +93,9 @@ CLAIMED = {
          BASE + 'Partial: text->tokens (tokenize) and token->atom (ast.literal_eval of one token) are CPython\'s; the completeness theorem '
          'covers str pieces (not bytes pieces) in adjacent concatenation; '
          'soundness (nothing outside the grammar is accepted) is tested by the near-miss stream, not proved. D9 is a recorded finding.'),
- 'C03': ('Theorems parseAll_bindings + flat_layouts_agree (statement-level completeness for flat bindings: any sequence of binding '
+ 'C03': ('Theorems parseStatement_block + blockMembers_render + block_member_is_flat_binding (a block with any comments / blank lines around '
+         'its header and members, member values in any layout, is read as its declaration followed by exactly its member bindings; a member '
+         'is the binding the flat statement spells) / parseAll_bindings + flat_layouts_agree (statement-level completeness for flat bindings: any sequence of binding '
          'statements, each preceded by arbitrary comments / blank lines and with its value in any layout, is read as exactly those '
          'bindings in order; two layouts agree) / parseStatement_binding / selector_must_be_contiguous / selector_components_valid / bad_selector_is_syntax_error / value_layout_irrelevant / '
          'trivia_between_statements_skipped / statement_must_end about the statement-level parser mirror (parse_statement, _parse_selector '
@@ -103,7 +105,8 @@ CLAIMED = {
          'indentation width, CRLF, form feed, trailing newline) and on a malformed-selector stream; both layouts must give the same '
          'bindings, imports and includes.',
          BASE + 'Partial: the statement-level completeness theorem covers flat bindings (the tokens of a scoped name are taken with the fact '
-         'that parseSelector accepts them, shown for a concrete name); blocks, imports and includes are covered by the correspondence only. '
+         'that parseSelector accepts them, shown for concrete names); a sequence mixing blocks and flat statements, imports and includes '
+         'are covered by the correspondence only. '
          'tokenize is CPython\'s. Layouts respect Python\'s own indentation rules.'),
  'C04': ('Theorems ref_plain / ref_scope / macro_is_scoped_ref / caller_supplied_not_evaluated / call_preserves_config (frame of the '
          'fuel-indexed evaluator, by induction over all five mutually recursive evaluation functions) / query_after_call hold for every '
